@@ -815,7 +815,22 @@ class ClassTable:
         return None
 
 
-def check_request(node, base, f, dicts, rep, what, suffix=""):
+def prefixed_paths(chain, path):
+    """the path after the prefixes of the chain; where a prefix ending in '/' meets a path starting with '/' both
+    the merged and the plain concatenation are accepted (that joint is not specified)"""
+    ps = {path}
+    for a in chain:
+        if a[0] == "p":
+            nxt = set()
+            for p in ps:
+                nxt.add(a[1] + p)
+                if a[1].endswith("/") and p.startswith("/"):
+                    nxt.add(a[1] + p[1:])
+            ps = nxt
+    return ps
+
+
+def check_request(node, base, f, dicts, rep, what, suffix="", exact=None):
     """the clauses of the statement for one request; returns a message or None"""
     verb, path = f[0], dec_str(f[1]) + suffix
     params = None if f[2] == "n" else dicts[int(f[2])]
@@ -858,6 +873,23 @@ def check_request(node, base, f, dicts, rep, what, suffix=""):
         trace_ok = got_trace == want_trace or ("x-trace" in ch and "X-Trace" not in (headers or {}))
         if not (canon_url(r["u"]) == expected_url(address, p, params) and trace_ok):
             return "chain: %s: url / applied adapters do not match the declared layering (%s)" % (what, r["u"])
+        # -- "goes to address + path": exactly one '/' between the address and the path, judged character by
+        # character where both are in normal form (address without a trailing '/' and a path with at most one leading
+        # '/', or address with one trailing '/' and a relative path); the joints between prefixes stay lenient
+        if exact is not None:
+            query = "?" + urlencode(params) if params else ""
+            wants = set()
+            for pp in prefixed_paths(chain, path):
+                lead = len(pp) - len(pp.lstrip("/"))
+                if not address.endswith("/") and lead <= 1:
+                    wants.add(address + ("" if lead else "/") + pp + query)
+                elif address.endswith("/") and not address.endswith("//") and lead == 0:
+                    wants.add(address + pp + query)
+                else:
+                    wants = None
+                    break
+            if wants is not None and exact not in wants:
+                return "url: %s goes to %s, address + path is %s" % (what, exact, sorted(wants)[0])
         # -- response: the processors of the chain in reverse order, each once, applied to the decoded response
         want = RawMark() if f[6] == "1" else ("" if f[5] == "E" else dec_json(f[5]))
         for a in chain[::-1]:
@@ -954,7 +986,7 @@ def oracle(case, replies):
     # ---- part 1: every reply against the declared layering
     nodes, callers, dicts, lists = {}, {}, {}, {}
     classes = ClassTable()
-    for line, rep in zip(lines, replies):
+    for idx, (line, rep) in enumerate(zip(lines, replies)):
         f = line.split()
         op = f[0]
         if op == "lastid":
@@ -991,7 +1023,11 @@ def oracle(case, replies):
                     parent = nodes[int(t[1])]
                     base = parent.base
                 else:
+                    # the address the connection is configured with; a `str` address is documented to lose one
+                    # trailing '/', the list / dict forms are taken as they are
                     parent, base = None, dec_str(t[1])
+                    if t[0] == "s" and base.endswith("/"):
+                        base = base[:-1]
             o = own_tok.split("=")
             used = []
             if o[0] == "n":
@@ -1054,7 +1090,10 @@ def oracle(case, replies):
                 if " same=0" in rep:
                     return "caller-object-modified: request changed an object passed in by the caller"
                 continue
-            msg = check_request(node, node.base, rest, dicts, rep, "'%s'" % " ".join(f[:3]), suffix)
+            exact = None
+            if idx + 1 < len(lines) and lines[idx + 1] == "lastid" and " u=" in replies[idx + 1]:
+                exact = dec_str(replies[idx + 1].split(" u=")[1])
+            msg = check_request(node, node.base, rest, dicts, rep, "'%s'" % " ".join(f[:3]), suffix, exact)
             if msg:
                 return msg
     # ---- part 2: frame. Re-run the history; after every operation send the same probe through every
@@ -1106,7 +1145,9 @@ def _descendants(nodes, name, env):
 ADDRS = ["http://h", "http://h/", "http://host:8080/base", "https://s.example/api/", "http://h//", "HTTPS://Up.example"]
 PREFIXES = ["/a", "/a/", "b", "b/", "/cmp/x", "", "/", "/v1", "/é", "x/y/"]
 PATHS = ["/p", "p", "", "/", "/p/q?z=1", "p%20q", "//d", "/ü", "a/b/"]
-LOGINS = ["u", "user:x", "", "üser", "a b"]
+# the last four are rewritten by Unicode NFC normalisation (base letter + combining mark, ANGSTROM / OHM / KELVIN
+# signs, conjoining Hangul jamo): the header must decode to the credentials as configured, code point by code point
+LOGINS = ["u", "user:x", "", "üser", "a b", "e\u0308", "\u212b\u2126", "\u1100\u1161", "a\u0301:\u212a"]
 HEADER_DICTS = [{}, {"X-A": "1"}, {"authorization": "mine"}, {"Authorization": "mine"}, {"content-type": "text/plain"},
                 {"Content-Type": "text/x"}, {"X-Trace": "c."}, {"x-request-id": "abc"}, {"X-Request-ID": "my"},
                 {"X-A": "1", "x-b": "two words", "Accept": "*/*"}, {"X-Request-Id": "Mixed", "X-A": "é"}]
@@ -1212,7 +1253,7 @@ class Builder:
             return (k,)
         if k == "e":
             return ("e", rng.choice("qr"))
-        return (k, self.rstr(LOGINS), self.rstr(["pw", "p:w", "", "£€"]))
+        return (k, self.rstr(LOGINS), self.rstr(["pw", "p:w", "", "£€", "o\u0302\u037e", "\u1112\u1161\u11ab"]))
 
     def response(self):
         rng = self.rng
@@ -1378,8 +1419,7 @@ class Builder:
 
     def lastid(self):
         """diagnostic line: request-id facts of the request just made"""
-        if self.rng.random() < 0.6:
-            self.lines.append("lastid")
+        self.lines.append("lastid")
 
     def call(self, k, method=None):
         rng = self.rng
@@ -1412,7 +1452,8 @@ class Builder:
             if cls == "H":
                 own, na = self.own(self.auth_ok(pa))
             else:
-                a = {"B": ("b", self.rstr(LOGINS), self.rstr(["pw", "p:w"])), "C": ("c", self.rstr(["id"]), self.rstr(["s3", ""])),
+                a = {"B": ("b", self.rstr(LOGINS), self.rstr(["pw", "p:w", "\u212a\u0301"])),
+                     "C": ("c", self.rstr(["id", "i\u0308d", "\u2126"]), self.rstr(["s3", "", "e\u0301\u037e"])),
                      "T": ("t", self.rstr(["tok"]))}[cls]
                 own, na = "o=" + enc_adapter(a), 1
             n = self.name()
@@ -1496,6 +1537,10 @@ def gen_one(rng, steps, rich):
 
 
 def corpus():
+    return [with_lastid(c) for c in _corpus()]
+
+
+def _corpus():
     e = enc_str
     return [
         # clone with a list of adapters (defect fixed by 622d998), with one adapter, with nothing
@@ -1578,10 +1623,20 @@ def small_scope(rng, sample=None):
                             yield {"lines": lines, "meta": {"kinds": ["small-scope:" + shape]}}
 
 
+def with_lastid(case):
+    """the diagnostic line after every request (the oracle reads the exact url from it)"""
+    out = []
+    for l in case["lines"]:
+        out.append(l)
+        if l.startswith(("req ", "call ")):
+            out.append("lastid")
+    return dict(case, lines=out)
+
+
 def gen_cases(rng, tier):
     n = 2500 if tier == "quick" else 60000
     for c in small_scope(rng, 0.025 if tier == "quick" else None):
-        yield c
+        yield with_lastid(c)
     for i in range(n):
         steps = rng.randrange(3, 11) if i % 10 else rng.randrange(10, 25)
         yield gen_one(rng, steps, rich=(i % 3 == 0))
@@ -1589,7 +1644,7 @@ def gen_cases(rng, tier):
 
 def search_cases(rng, tier):
     for c in small_scope(rng):
-        yield c
+        yield with_lastid(c)
     for i in range(20000):
         yield gen_one(rng, rng.randrange(2, 7), rich=False)
 
@@ -1719,7 +1774,7 @@ ASSUMPTIONS = ["header names and methods are ASCII (str.upper/lower/capitalize m
 THEOREMS = [
     "C17.reachable_inv", "C17.view_defined", "C17.request_uses_chain", "C17.derive_chain", "C17.base_chain",
     "C17.add_chain", "C17.chain_once", "C17.prefix_outermost", "C17.prefix_join", "C17.auth_once", "C17.auth_none",
-    "C17.auth_accepts", "C17.auth_refused", "C17.auth_decodes", "C17.auth_decodes_b64", "C17.literals", "C17.url",
+    "C17.auth_accepts", "C17.auth_refused", "C17.auth_decodes", "C17.auth_decodes_b64", "C17.literals", "C17.url", "C17.url_one_slash",
     "C17.params_all_pairs", "C17.method", "C17.body", "C17.dumps_shape", "C17.response_chain",
     "C17.request_response", "C17.exception_propagates", "C17.frame", "C17.frame_reachable", "C17.chain_stable",
     "C17.caller_unchanged", "C17.clone_list", "C17.get_conn_cached", "C17.get_conn_first", "C17.call_component",
@@ -1735,7 +1790,8 @@ LEVEL_TEXT = ("Kernel-checked for all heaps/histories/arguments on a heap model 
               "request_response); adapter exceptions reach the caller, a refusal sends nothing and consumes no id "
               "(exception_propagates); exactly one Authorization header with the authenticating layer's value, decoding to "
               "the credentials for any base64 with a decode law and for the encoder the driver runs (auth_*); url / method / "
-              "body by type with json.dumps and bool(data) modelled (url, method, body, dumps_shape); frame: no history "
+              "body by type with json.dumps and bool(data) modelled, exactly one '/' between address and path in normal form "
+              "(url, url_one_slash, method, body, dumps_shape); frame: no history "
               "without add_adapter on c changes any request through c (frame); adapters and do_request write only to the "
               "fresh header object, no existing dict is ever written, caller lists only by the caller (caller_unchanged); "
               "clone with nothing / one adapter / a list (clone_list); prefix cache (get_conn_*); params read as an association "
@@ -1750,7 +1806,9 @@ LEVEL_NOTE = ("Observation, outside the property: _MCALLERS_METAS is merged per 
               "selection only where first-base-wins and the MRO agree; the differing shape is compared with the model only "
               "(tag class:shadowed-override(not judged)). Diagnostic only (compared, never part of the verdict): the request-id header and the number taken from the id "
               "counter (C16's property; they depend on conn_impl sharing and on when the id is taken), and the exact number "
-              "of '/' at the joints of the url (the observable line has runs of '/' collapsed). Correspondence only (not "
+              "of '/' at the joints of the url in the tie (the observable line has runs of '/' collapsed); the oracle judges "
+              "the url character by character - exactly one '/' between address and path - where address and path are in "
+              "normal form, and leaves only the prefix-to-prefix joints and non-normal inputs lenient. Correspondence only (not "
               "theorems): that the Python classes behave as the model on histories not "
               "generated; json.loads of the response enters the model as a parsed value; header-name case functions are "
               "ASCII. Literals (header names, 'Basic ', 'Bearer ', default methods) are regenerated from the source on "
